@@ -34,6 +34,18 @@ fn overflow_in_sender(p: &PanicInfo) -> bool {
     p.message.contains("overflow") && p.file.contains("packet_sender")
 }
 
+/// C04: the library's own assertions about the size of the frame under construction (the frame
+/// builder must produce exactly the size the emitter budgeted against the 1472-byte limit).
+fn panics_in_frame_building(p: &PanicInfo) -> bool {
+    p.file.contains("half_connection/emit.rs") || p.file.contains("frame/serial/build.rs")
+}
+
+/// C06: the sender's own assertion that a transfer-window slot is free when a packet is emitted
+/// guards exactly "never more packets outstanding than the peer advertised".
+fn panics_in_packet_sender(p: &PanicInfo) -> bool {
+    p.file.contains("half_connection/packet_sender.rs")
+}
+
 /// C14: a panic inside the rate computer is the property's own violation.
 fn panics_in_rate_code(p: &PanicInfo) -> bool {
     p.file.contains("send_rate") || p.file.contains("recv_rate_set") || p.file.contains("loss_rate")
@@ -643,7 +655,7 @@ pub fn c04() -> CheckDef {
             Family { name: "a_rewrite", world: "A", weight: 1, gen: c04_gen_rewrite, oracles: c04_oracles, adversary: Some(c04_adv), keep_workload: true, custom: None,
                 what: "same sweep, plus a hostile middlebox that appends to genuine frames a forged fragment for a packet in progress whose header disagrees with the first fragment seen (last-fragment id, channel or parent leads)" },
         ],
-        panic_is_violation: no_panics,
+        panic_is_violation: panics_in_frame_building,
         hang_is_violation: false,
         quick_runs: 2000,
         thorough_runs: 40_000,
@@ -819,7 +831,14 @@ fn c06_gen_hostile(seed: u64, run: u64, thorough: bool, flood: bool) -> Plan {
     plan.adversary = "hostile_stream".into();
     plan.params.insert("hostile".into(), 1.0);
     plan.params.insert("hostile_big".into(), 1.0);
-    plan.params.insert("hostile_focus".into(), if flood { 2.0 } else { 1.0 });
+    // every fourth stream: "tail first" - packets announced by their short (or empty) last
+    // fragment only, so that whatever the receiver charges for a packet it has seen one short
+    // datagram of, it must already cover the whole assembly buffer
+    let tail_first = !flood && run % 4 == 2;
+    if tail_first {
+        plan.params.insert("hostile_tail_frags".into(), *r.pick(&[1.0, 1.0, 2.0, 3.0, 8.0]));
+    }
+    plan.params.insert("hostile_focus".into(), if flood { 2.0 } else if tail_first { 3.0 } else { 1.0 });
     plan.params.insert("hostile_max".into(), if flood { 150_000.0 } else { r.range(100, 3000) as f64 });
     plan.end_us = horizon;
     plan.sort();
@@ -857,7 +876,7 @@ pub fn c06() -> CheckDef {
             Family { name: "a_ack_queue_flood", world: "A", weight: 1, gen: c06_gen_flood, oracles: c06_oracles_receiver, adversary: Some(c06_adv), keep_workload: false, custom: None,
                 what: "victim with a 1472 B/s ceiling flooded with empty data frames whose ids are 32 apart, so that every frame opens a new acknowledgement group faster than they can be sent" },
         ],
-        panic_is_violation: no_panics,
+        panic_is_violation: panics_in_packet_sender,
         hang_is_violation: false,
         quick_runs: 2500,
         thorough_runs: 50_000,
@@ -1192,7 +1211,7 @@ pub fn c07() -> CheckDef {
             Family { name: "b_handshake_faults", world: "B", weight: 3, gen: c07_gen_faulty, oracles: c07_oracles, adversary: Some(c07_adv), keep_workload: true, custom: None,
                 what: "1-6 clients arriving within 3 s, loss/dup/reorder aimed at SYN, SYN-ACK, ACK and error frames, forged handshake frames from spoofed client and server addresses with nonces that differ from the genuine ones, replays of genuine handshake frames up to 20 s later, incompatible configurations, wrong-version SYNs, client crash and restart on the same address, a few reliable packets per connection" },
             Family { name: "b_handshake_clean", world: "B", weight: 1, gen: c07_gen_clean, oracles: c07_oracles, adversary: None, keep_workload: false, custom: None,
-                what: "same population on a loss-free link: incompatible configurations must be refused with the matching error, compatible ones must connect and agree on sequence numbers and limits" },
+                what: "same population on a link that loses only a random subset of the first three datagrams of each handshake direction: incompatible configurations must be refused with the matching error, compatible ones must connect on BOTH sides (retries of SYN, SYN-ACK and ACK complete the handshake) and agree on sequence numbers and limits" },
         ],
         panic_is_violation: no_panics,
         hang_is_violation: false,
@@ -1222,7 +1241,7 @@ pub fn c08() -> CheckDef {
     CheckDef {
         property: "C08",
         families: vec![Family { name: "b_lifecycle", world: "B", weight: 1, gen: c08_gen, oracles: c08_oracles, adversary: None, keep_workload: false, custom: None,
-            what: "1-4 clients, random interleavings of send / disconnect / disconnect_now / Server::drop / step / flush on both endpoints, client crash and restart, loss and duplication aimed at handshake and disconnect frames, blackouts, active timeouts 1-20 s racing the disconnect retries, skewed clocks, stalls" }],
+            what: "1-4 clients, random interleavings of send / disconnect / disconnect_now / Server::drop / step / flush on both endpoints, client crash and restart, loss and duplication aimed at handshake and disconnect frames, blackouts, active timeouts 1-20 s racing the disconnect retries, skewed clocks, stalls, stray handshake frames (foreign versions, other nonces, incompatible limits, stray ACKs) from the clients' own addresses during the connection's life" }],
         panic_is_violation: no_panics,
         hang_is_violation: false,
         quick_runs: 1500,
@@ -1251,7 +1270,7 @@ pub fn c17() -> CheckDef {
         property: "C17",
         families: vec![
             Family { name: "b_limits_clean", world: "B", weight: 1, gen: c17_gen_clean, oracles: c17_oracles, adversary: None, keep_workload: false, custom: None,
-                what: "max_active 1..6 x max_total 1..12 swept by run index, 1-12 clients arriving in bursts (latency up to 300 ms so that many SYNs precede the first ACK), connections ending by disconnect from either side, drop, client crash; loss-free link: refused clients must see ServerFull, and a late client must be admitted once capacity has returned" },
+                what: "max_active 1..6 x max_total 1..12 swept by run index, 1-12 clients arriving in two bursts (latency up to 300 ms so that many SYNs precede the first ACK; the second burst arrives while connections of the first are ending or lingering), connections ending by disconnect from either side, Server::drop, client crash, disconnect followed by Server::drop of the closing/closed entry, and handshakes abandoned right after the SYN; loss-free link: refused clients must see ServerFull, and a late client must be admitted once capacity has returned" },
             Family { name: "b_limits_faults", world: "B", weight: 1, gen: c17_gen_faulty, oracles: c17_oracles, adversary: None, keep_workload: false, custom: None,
                 what: "same with loss/dup/reorder of handshake and disconnect frames: the two counters must hold at every step" },
         ],
@@ -1279,7 +1298,7 @@ pub fn c18() -> CheckDef {
     CheckDef {
         property: "C18",
         families: vec![Family { name: "b_spoof", world: "B", weight: 1, gen: c18_gen, oracles: c18_oracles, adversary: None, keep_workload: false, custom: None,
-            what: "1-5 spoofable addresses that never return a nonce: valid 1472-byte SYNs (repeated, same or fresh nonce), undersized CRC-valid SYNs (length swept over 5..1471 across runs), wrong-version, configuration-refused and capacity-refused SYNs, stray frames of every other type, gaps up to 25 s (beyond the handshake timeout); servers with and without free capacity; bytes per address counted with and without the 28-byte UDP/IP header" }],
+            what: "1-5 spoofable addresses that never return a nonce: valid 1472-byte SYNs (repeated, same or fresh nonce), undersized CRC-valid SYNs (length swept over 5..1471 across runs), wrong-version, configuration-refused and capacity-refused SYNs, stray frames of every other type, bursts of 80-400 small stray frames of one type right after a valid SYN, gaps up to 25 s (beyond the handshake timeout); servers with and without free capacity; the violation is the payload-byte balance, the balance with 28 header bytes per datagram is reported as a measurement" }],
         panic_is_violation: no_panics,
         hang_is_violation: false,
         quick_runs: 2000,
@@ -1305,7 +1324,7 @@ pub fn c09() -> CheckDef {
     CheckDef {
         property: "C09",
         families: vec![Family { name: "b_disconnect", world: "B", weight: 1, gen: c09_gen, oracles: c09_oracles, adversary: None, keep_workload: false, custom: None,
-            what: "0-200 packets of mixed modes queued, then disconnect() (70 %) or disconnect_now() from the client or the server; loss/dup/reorder/corruption of data, ack, disconnect and disconnect-ack frames; total or one-way blackout starting right after the call (sometimes healing); the peer passive or (15 %) disconnecting as well; active timeouts 2-20 s" }],
+            what: "0-200 packets of mixed modes queued (30 %: followed by 1-4 Reliable packets without payload), then disconnect() (70 %) or disconnect_now() from the client or the server; loss/dup/reorder/corruption of data, ack, disconnect and disconnect-ack frames; total or one-way blackout starting right after the call (sometimes healing); the peer passive or (15 %) disconnecting as well; active timeouts 2-20 s" }],
         panic_is_violation: no_panics,
         hang_is_violation: false,
         quick_runs: 1500,
